@@ -232,6 +232,11 @@ func c13Unquote(a string) (s string, complete bool, ok bool) {
 	return b.String(), complete, true
 }
 
+// c13Modelled are the system calls the inode/dirent model interprets; the
+// others in the trace filter (fchmod, ioctl, ...) do not change what it tracks.
+var c13Modelled = map[string]bool{"open": true, "openat": true, "write": true, "pwrite64": true, "fsync": true, "fdatasync": true,
+	"close": true, "rename": true, "renameat": true, "renameat2": true, "mkdir": true, "mkdirat": true, "unlink": true, "unlinkat": true, "rmdir": true}
+
 // c13ParseTrace reads a strace -f -o file and returns the completed system
 // calls in completion order.
 func c13ParseTrace(path string) ([]c13Sys, error) {
@@ -257,6 +262,9 @@ func c13ParseTrace(path string) ([]c13Sys, error) {
 		if strings.HasPrefix(rest, "+++") || strings.HasPrefix(rest, "---") {
 			continue
 		}
+		if strings.HasSuffix(rest, "<detached ...>") || strings.HasPrefix(rest, "???") {
+			continue // strace letting go of a thread when the helper exits
+		}
 		if strings.HasSuffix(rest, "<unfinished ...>") {
 			pending[pid] = strings.TrimSuffix(rest, "<unfinished ...>")
 			continue
@@ -278,6 +286,9 @@ func c13ParseTrace(path string) ([]c13Sys, error) {
 			return nil, fmt.Errorf("unexpected trace line %q", line)
 		}
 		s := c13Sys{line: rest, name: rest[:par]}
+		if !c13Modelled[s.name] {
+			continue
+		}
 		args, tail, ok := c13ParseArgs(rest[par+1:])
 		if !ok {
 			return nil, fmt.Errorf("cannot parse arguments of %q", line)
